@@ -346,6 +346,29 @@ impl<C: Configuration> Ingredient for IngredientImpl<C> {
         JarKind::Struct
     }
 
+    #[cfg(salsa_rs_salsa_verif)]
+    fn verif_dump(&self, zalsa: &Zalsa, out: &mut Vec<String>) {
+        for entry in self.entries(zalsa) {
+            let id = entry.key.key_index();
+            let value = entry.value;
+            out.push(format!(
+                "input {} name={} id={}:{} revisions={:?} durabilities={:?}",
+                self.ingredient_index.as_u32(),
+                C::DEBUG_NAME,
+                id.index(),
+                id.generation(),
+                value.revisions,
+                value.durabilities
+            ));
+            // SAFETY: The memo table belongs to a value that we allocated, so it has the
+            // correct type.
+            let memos = unsafe { self.memo_table_types.attach_memos(&value.memos) };
+            for line in memos.verif_dump() {
+                out.push(format!("memo key={}:{} {}", id.index(), id.generation(), line));
+            }
+        }
+    }
+
     fn memo_table_types(&self) -> &Arc<MemoTableTypes> {
         &self.memo_table_types
     }
